@@ -287,6 +287,24 @@ func runConc(c Case, tr *Tracer) {
 			ids[g] = append(ids[g], opID)
 		}
 	}
+	// the tail: after a barrier every goroutine runs the SAME kind of call again and again on values of its own, so
+	// that calls into one piece of library code really overlap (the pools' own atomics order most other accesses)
+	tailFrom := nops
+	hk := int(uint(caseInt(c, "t")) % 15)
+	reps := map[int]int{2: 3, 3: 3, 4: 3, 8: 3, 0: 20, 1: 20, 7: 20, 9: 20, 10: 20, 14: 6}[hk]
+	if reps == 0 {
+		reps = 100
+	}
+	if ng*reps > 600 {
+		reps = 600/ng + 1
+	}
+	for g := 0; g < ng; g++ {
+		for j := 0; j < reps; j++ {
+			prog[g] = append(prog[g], opd{hk, rr.Int63()})
+			opID++
+			ids[g] = append(ids[g], opID)
+		}
+	}
 	seqres := make([][]string, ng)
 	alone := func() {
 		for g := 0; g < ng; g++ {
@@ -304,9 +322,9 @@ func runConc(c Case, tr *Tracer) {
 	start := make(chan struct{})
 	// when a candidate is re-examined the goroutines run the program several times (VERIF_CONC_REPS): the first
 	// round that differs from the sequential results is the one reported
-	reps := 1
+	rounds := 1
 	if n, err := strconv.Atoi(os.Getenv("VERIF_CONC_REPS")); err == nil && n > 1 && !fresh {
-		reps = n
+		rounds = n
 	}
 	// the pool hook of packet.Writer: one record per pool operation, ordered by a sequence taken under a lock
 	type poolEv struct {
@@ -320,7 +338,10 @@ func runConc(c Case, tr *Tracer) {
 	wid, bid := map[unsafe.Pointer]int{}, map[unsafe.Pointer]int{}
 	nw := 0
 	const maxWriters = 300
-	packet.VerifPoolHook = func(op string, w, b unsafe.Pointer, n int) {
+	// the observer's lock orders the goroutines and would hide data races from the detector: every second program
+	// runs without it (no pool events, undisturbed schedules)
+	observe := caseInt(c, "t")%2 == 0
+	hook := func(op string, w, b unsafe.Pointer, n int) {
 		pmu.Lock()
 		defer pmu.Unlock()
 		if op == "get" {
@@ -339,19 +360,28 @@ func runConc(c Case, tr *Tracer) {
 		}
 		plog = append(plog, poolEv{op, wi, bid[b], n})
 	}
-	for rep := 0; rep < reps; rep++ {
+	if observe {
+		packet.VerifPoolHook = hook
+	}
+	for rep := 0; rep < rounds; rep++ {
 		round := make([][]string, ng)
 		if rep > 0 {
 			start = make(chan struct{})
 		}
+		var bar sync.WaitGroup
+		bar.Add(ng)
 		for g := 0; g < ng; g++ {
 			wg.Add(1)
 			go func(g int) {
 				defer wg.Done()
 				<-start
 				yr := rand.New(rand.NewSource(seedv + int64(g) + int64(rep)*7919))
-				for _, o := range prog[g] {
-					if yr.Intn(2) == 0 {
+				for i, o := range prog[g] {
+					if i == tailFrom {
+						bar.Done()
+						bar.Wait()
+					}
+					if i < tailFrom && yr.Intn(2) == 0 {
 						runtime.Gosched()
 					}
 					round[g] = append(round[g], digest(concOp(o.kind, o.seed)))
